@@ -133,10 +133,34 @@ func c15Chain(seed int) *c15Graph {
 	return g
 }
 
+// c15Underscore: module and item names whose concatenations coincide (module a item b_f, module a_b item f).
+func c15Underscore(seed int) *c15Graph {
+	r := simrt.NewRng(simrt.Mix(uint64(seed), 0x5c0e))
+	g := &c15Graph{overlap: "none"}
+	main := &c15Mod{name: "main", pubGlob: map[string]bool{}}
+	a := &c15Mod{name: "a", pubGlob: map[string]bool{}, globals: []string{"b_x"}}
+	ab := &c15Mod{name: "a_b", pubGlob: map[string]bool{}, globals: []string{"x"}}
+	a.fns = []c15Fn{{name: "b_f", pub: true, global: "b_x", wrap: r.Intn(5)}}
+	ab.fns = []c15Fn{{name: "f", pub: true, global: "x", wrap: r.Intn(5)}}
+	g.mods = []*c15Mod{main, a, ab}
+	if r.Intn(2) == 0 {
+		main.addImport("a", "b_f")
+		main.addImport("a_b", "f")
+	} else {
+		main.addImport("a_b", "f")
+		main.addImport("a", "b_f")
+	}
+	g.mainBody = []string{"call:b_f", "call:f", "call:b_f", "call:f"}
+	return g
+}
+
 // c15Gen builds a legal graph from a seed, then (optionally) breaks it in exactly one way.
 func c15Gen(seed int, illegal int) *c15Graph {
 	if illegal == 100 {
 		return c15Chain(seed)
+	}
+	if illegal == 101 {
+		return c15Underscore(seed)
 	}
 	r := simrt.NewRng(simrt.Mix(uint64(seed), 0xc15))
 	g := &c15Graph{}
@@ -700,6 +724,9 @@ func planC15(t *testing.T, tier string, seed uint64) ([]RunSpec, error) {
 			add(map[string]int{"g": gseed, "backend": backend, "illegal": ill}, nil, 1+orders/4)
 			if gi%4 == 1 {
 				add(map[string]int{"g": gseed, "backend": backend, "illegal": 100}, nil, 1+orders/2)
+			}
+			if gi%10 == 2 {
+				add(map[string]int{"g": gseed, "backend": backend, "illegal": 101}, nil, 2)
 			}
 			// host lookup faults on each of the first lookups
 			if gi%3 == 0 {
